@@ -960,6 +960,36 @@ Qed.
 Lemma admin_ban_nonpositive : forall c h d now bl, d <= 0 -> admin_ban c h d now bl = bl.
 Proof. intros. unfold admin_ban. destruct (Z.leb_spec d 0); [reflexivity|lia]. Qed.
 
+(** BAN / UNBAN name a host: they reach EVERY address of the pool with that host, whatever its
+    port, position or shard. *)
+Lemma unban_host_clears : forall c h bl x, In x (servers c) -> a_host x = h -> ~ In x (keys (admin_unban c h bl)).
+Proof.
+  intros c h bl x I H. apply find_ban_None. rewrite admin_unban_spec.
+  destruct (in_dec addr_eq_dec x (host_addrs c h)) as [_|N]; [reflexivity|].
+  exfalso. apply N. apply host_addrs_servers. auto.
+Qed.
+
+Lemma ban_host_covers : forall c h d now bl x, wfc c -> d > 0 -> In x (servers c) -> a_host x = h ->
+  a_role x = Replica -> In x (keys (admin_ban c h d now bl)).
+Proof.
+  intros c h d now bl x W D I H R. pose proof (admin_ban_spec c h d now bl x W D) as S.
+  destruct (find_ban x bl) as [v|] eqn:F.
+  - eapply find_ban_In. exact S.
+  - destruct (in_dec addr_eq_dec x (host_addrs c h)) as [_|N].
+    + unfold is_replica in S. rewrite R in S. eapply find_ban_In. exact S.
+    + exfalso. apply N. apply host_addrs_servers. auto.
+Qed.
+
+Lemma ban_host_only : forall c h d now bl x, wfc c -> d > 0 -> ~ In x (keys bl) ->
+  In x (keys (admin_ban c h d now bl)) -> In x (servers c) /\ a_host x = h /\ a_role x = Replica.
+Proof.
+  intros c h d now bl x W D N I. apply is_banned_In in I. unfold is_banned in I.
+  rewrite (admin_ban_spec c h d now bl x W D) in I. apply find_ban_None in N. rewrite N in I.
+  destruct (in_dec addr_eq_dec x (host_addrs c h)) as [Y|_]; [|discriminate].
+  apply host_addrs_servers in Y. destruct Y as [Y1 Y2]. unfold is_replica in I.
+  destruct (a_role x); [discriminate|auto].
+Qed.
+
 (** (b): an address that comes back from a ban is health-checked even on a fresh connection. *)
 Lemma unbanned_is_health_checked : forall c tc bc outs a bl fresh h,
   is_banned a bl = true -> outs a = Conn fresh h -> h <> HcOk ->
